@@ -1,3 +1,4 @@
 MODULES = [
     'harness.c01',
+    'harness.c09',
 ]
